@@ -5,6 +5,8 @@ import PyxModel.Oal.Stmt
   Helper lemmas for C07 (statement level): `parseStmts (printStmts s) = some s` by structural
   induction on the statement tree, one lemma per clause parser, explicit fuel bounds.
 -/
+set_option linter.unusedSimpArgs false
+
 namespace Pyx.Oal
 
 /-- the tokens that can follow an expression inside a statement: `;`, the optional words LOOP / THEN,
